@@ -228,6 +228,18 @@ func checkC11(c c11Case) (ci caseInfo, err error) {
 				continue
 			}
 			fills := singleFills(p.model)
+			for i := range fills {
+				// different values from one fill to the next, so that a template that remembers a value shows
+				if e := fills[i].Elem; e != nil && fills[i].Kind != model.BOOLEAN && !model.IsFloat(fills[i].Kind) {
+					v := *e
+					if model.IsSigned(fills[i].Kind) {
+						v.I = int64(op.N%100) - 50
+					} else {
+						v.U = uint64(op.N+i) % 200
+					}
+					fills[i].Elem = &v
+				}
+			}
 			fill := map[string]interface{}{}
 			binds := map[string]Assign{}
 			for i, a := range fills {
